@@ -61,6 +61,7 @@ func (P *Prog) verifyFunction(fn *ssa.Function, spec *FuncSpec) *Unit {
 	st := &State{locals: map[*Cell]string{}, heaps: map[string]string{}, ghosts: map[string]string{}}
 	st.alloc = vc.fresh("alloc0", "Int")
 	vc.assume("(> " + st.alloc + " 0)")
+	vc.entryAlloc = st.alloc
 	// parameters
 	for _, p := range fn.Params {
 		t := vc.fresh("p_"+p.Name(), vc.S.sortOf(p.Type()))
@@ -152,6 +153,14 @@ func (P *Prog) verifyFunction(fn *ssa.Function, spec *FuncSpec) *Unit {
 		}
 	}
 	fr.entry = st.clone()
+	if spec != nil && spec.Aspect {
+		// safety and frame conditions of the body are proved once, by the plain contract
+		cp := *spec
+		cp.NoSafety = true
+		spec = &cp
+		fr.spec = spec
+		fr.frameAssumed = true
+	}
 	if spec != nil {
 		vc.smoke(name+"/smoke/entry", spec.Props, "true")
 	}
@@ -216,7 +225,9 @@ func (vc *VC) execReturn(fr *Frame, st *State, reach string, vals []Val) {
 	nret := fr.count("return")
 	for i, c := range spec.Ensures {
 		if c.Free {
-			vc.trusted["free ensures of "+fr.key+": "+c.Src] = true
+			if !strings.Contains(c.Src, "[proved in aspect ") {
+				vc.trusted["free ensures of "+fr.key+": "+c.Src] = true
+			}
 			continue
 		}
 		c := c
